@@ -25,6 +25,10 @@ def check(tier, seed):
             return corr.search()
         ok = proof_stage(rep, PROP_MODULE, search=search, required=[r for r in REQUIRED if r.startswith("Never.C10")])
         st = corr.evaluate(rep)
+        # enumerator values defined through enumerators of other enum types (plain, valued, record-carrying; declared before and
+        # after): reducer value = run-time value of a variable holding the enumerator; expectations from progs.enumred_family
+        import vm_checks
+        st["enum_cross_programs"] = vm_checks.expectation_stage(rep, tier, seed, "enumred", want=lambda meta: meta.get("enumred"))
         rep.cov.update(trusted_base=["Lean 4.33 kernel", "axioms: propext, Classical.choice, Quot.sound",
                                      "gen/numtab.py + clang-14 JSON AST (typing, macro expansion, implicit casts)",
                                      "C semantics assumed by Model/CExpr.lean (wrap-around, idiv trap, FLT_EVAL_METHOD 0, cvtt*2si)",
